@@ -59,6 +59,16 @@ type gitscannerResult struct {
 	Err     error
 }
 
+// separateMergeDiffsArg returns the option that makes "git log -p" show the
+// diff of a merge against each of its parents. "-m" only does so as long as
+// log.diffMerges is not set in the user's configuration.
+func separateMergeDiffsArg() string {
+	if git.IsGitVersionAtLeast("2.31.0") {
+		return "--diff-merges=separate"
+	}
+	return "-m"
+}
+
 func scanUnpushed(cb GitScannerFoundPointer, remote string) error {
 	var logArgs []string
 	// commits made on a detached HEAD are referenced by no branch or tag
@@ -67,6 +77,10 @@ func scanUnpushed(cb GitScannerFoundPointer, remote string) error {
 	}
 	logArgs = append(logArgs,
 		"--branches", "--tags", // include all locally referenced commits
+		// what the resolution of a merge introduces only shows up in
+		// the diffs of the merge commit itself, which "git log -p"
+		// does not print by default
+		separateMergeDiffsArg(),
 		"--not") // but exclude everything that comes after
 
 	if len(remote) == 0 {
